@@ -218,7 +218,8 @@ class Enc:
         self.weird_empty = weird_empty
         self.special = special
         self.strided = strided
-        self.nd = DEFAULT_ND if nd is None else nd              # probability that a regular level over a plain leaf array becomes an n-d NumpyArray dimension
+        # (per array: never / sometimes / nearly always -- so that records with several n-d fields occur)
+        self.nd = (rng.choice([0, DEFAULT_ND, DEFAULT_ND, 0.9]) if DEFAULT_ND else 0) if nd is None else nd              # probability that a regular level over a plain leaf array becomes an n-d NumpyArray dimension
         self.decisions = []      # (is_regular, size) per list level, in encoding order
         self.replay = None       # when set: list of decisions to follow (canonical re-encoding keeps the type)
         self.stats = {}
